@@ -14,8 +14,8 @@ def m(name, prop, path, old, new, note):
 
 DL = "kvs/distlock/kvlock.go"
 m("c01_trylock_error_is_success", "C01", DL,
-  "\t}); err == nil {\n\t\tl.future.Store(timeout.Call(func() { l.supportTimeout(ver) }, l.dlp.leaseTTL/2))\n\t\treturn true\n\t}",
-  "\t}); err == nil || !errors.Is(err, errors.ErrExist) {\n\t\tl.future.Store(timeout.Call(func() { l.supportTimeout(ver) }, l.dlp.leaseTTL/2))\n\t\treturn true\n\t}",
+  "\t}); err == nil {\n\t\ttn := atomic.LoadInt32(&l.tenure)\n\t\tl.future.Store(timeout.Call(func() { l.supportTimeout(ver, tn) }, l.dlp.leaseTTL/2))\n\t\treturn true\n\t}",
+  "\t}); err == nil || !errors.Is(err, errors.ErrExist) {\n\t\ttn := atomic.LoadInt32(&l.tenure)\n\t\tl.future.Store(timeout.Call(func() { l.supportTimeout(ver, tn) }, l.dlp.leaseTTL/2))\n\t\treturn true\n\t}",
   "TryLock treats any storage error except ErrExist as success (needs a fault or a cancelled context on Create)")
 m("c01_cancelled_attempt_deletes_record", "C01", DL,
   "\tatomic.StoreInt32(&l.lckCntr, 0)\n\tl.lockCh <- true\n\treturn err\n}",
@@ -30,13 +30,13 @@ m("c04_storage_wait_ignores_ctx", "C04", DL,
   "\t\t\t_ = l.dlp.Storage.WaitForVersionChange(context.Background(), l.key, ver)",
   "cancellation is not seen while parked in the storage wait")
 m("c05_renewal_not_rearmed_on_even", "C05", DL,
-  "\tnewFuture := timeout.Call(func() { l.supportTimeout(r.Version) }, l.dlp.leaseTTL/2)\n\tif !l.future.CompareAndSwap(future, newFuture) {\n\t\t// somebody",
-  "\tnewFuture := timeout.Call(func() { l.supportTimeout(r.Version) }, l.dlp.leaseTTL*2)\n\tif !l.future.CompareAndSwap(future, newFuture) {\n\t\t// somebody",
+  "\tnewFuture := timeout.Call(func() { l.supportTimeout(r.Version, tn) }, l.dlp.leaseTTL/2)\n\tif !l.future.CompareAndSwap(future, newFuture) {\n\t\t// somebody",
+  "\tnewFuture := timeout.Call(func() { l.supportTimeout(r.Version, tn) }, l.dlp.leaseTTL*2)\n\tif !l.future.CompareAndSwap(future, newFuture) {\n\t\t// somebody",
   "second and later renewals are armed at 2*lease instead of lease/2: the record lapses after ~1.5 leases of holding")
 m("c05_unlock_does_not_cancel_timer", "C05", DL,
   "\tfuture := l.future.Load().(timeout.Future)\n\tfuture.Cancel()\n\terr := l.dlp.Storage.Delete",
   "\terr := l.dlp.Storage.Delete",
-  "EQUIVALENT (control): Unlock leaves the renewal timer armed; the one armed attempt then fails with ErrNotExist and arms nothing, which C05 allows - expected to survive")
+  "Unlock leaves the renewal timer armed. With a successful Delete the one armed attempt fails with ErrNotExist and arms nothing (allowed by C05; this was a control mutant at first); with a failing Delete the attempt refreshes the record of the released lock")
 m("c05_renewal_uses_put", "C05", DL,
   "\tr, err := l.dlp.Storage.CasByVersion(context.Background(), kvs.Record{",
   "\tr, err := l.dlp.Storage.Put(context.Background(), kvs.Record{",
